@@ -152,7 +152,10 @@ C07_MustAccept(s0) ==
 \* ======================================================================== C01
 \* an accessor that raises is C19's subject, not a well-formedness failure
 OptWellFormed(c, f) == ~Ok(f) \/ V(f) = None \/ WellFormed(c, V(f)[1])
-C01_Ascii(o) == Ok(o.str) => IsAscii(V(o.str))
+\* (an IP-literal host may carry a zone id, which is kept verbatim -- C16 -- and may be non-ASCII: the repository's own
+\* tests construct 'http://1.2.3.4%тест%42:123'; the string clause is judged for hosts without a zone id)
+HostHasZone(o) == "raw_host" \in DOMAIN o /\ Ok(o.raw_host) /\ V(o.raw_host) # None /\ Has(V(o.raw_host)[1], PCT) /\ ~IsAscii(V(o.raw_host)[1])
+C01_Ascii(o) == (Ok(o.str) /\ ~HostHasZone(o) /\ ~(\E i \in 1..Len(Netloc5(o)) : Netloc5(o)[i] >= 128 /\ Has(Netloc5(o), PCT))) => IsAscii(V(o.str))
 C01_Components(o) ==
   /\ OptWellFormed("user", o.raw_user)
   /\ OptWellFormed("password", o.raw_password)
